@@ -12,6 +12,7 @@ import (
 var _ = verifReg("C07cbor", VerifC07cbor)
 var _ = verifReg("C07json", VerifC07json)
 var _ = verifReg("C16json", VerifC07json)
+var _ = verifReg("C07wire", VerifC07wire)
 var _ = verifReg("C07new", VerifC07new)
 var _ = verifReg("C16reg", VerifC16reg)
 var _ = verifReg("C16fresh", VerifC16fresh)
@@ -443,4 +444,23 @@ func VerifC16fresh() {
 	ndAssert("c16-mutating-one-instance-leaves-the-other-unchanged", obsSame(pre, obsOf(b), -1))
 	scs, _ := a.GetSoftwareComponents()
 	ndCover("c16-mutated", len(scs) == 1)
+}
+
+// C07 on the wire (L3): an otherwise arbitrary profile-1 token that ALSO carries key 265 (the
+// profile claim of the other profile) with an item of any kind. Unless that item is null, a
+// tag, the empty string or the profile-1 name (encodings without a verdict), the token declares
+// something that is not a registered profile it conforms to: decoding-and-validating it fails.
+func VerifC07wire() {
+	l3install()
+	T, _, _, _, _, _, _ := c04token()
+	it := c04arbitrary("k265")
+	T.put(265, it, true)
+	buf := verifEncodeItem(T)
+	_, err := DecodeAndValidateClaimsFromCBOR(buf)
+	verdict := it.kind != ikNull && it.kind != ikTag && !(it.kind == ikTstr && (it.s == verifP1Name || it.s == ""))
+	if verdict {
+		ndAssert("c07-wire-foreign-or-malformed-profile-claim-is-error", err != nil)
+	}
+	ndCover("c07-wire-nontext-rejected", err != nil && it.kind == ikUint)
+	ndCover("c07-wire-accepted", err == nil)
 }
